@@ -336,3 +336,147 @@ var trimFacet = harness.Register(&harness.Facet[textCase]{
 })
 
 func TestTrim(t *testing.T) { trimFacet.Run(t) }
+
+// ---- search / match / replace with an argument that is NOT a RegExp (15.5.4.10-12, the string-valued corner) -----
+
+// plainCase: search(v), match(v) or replace(v, w) on a primitive string, v and w primitive values,
+// plain objects or arrays (nothing that logs). RegExp arguments belong to C10; this facet only pins
+// how a non-RegExp argument is turned into the thing searched for: undefined/omitted → the empty
+// pattern for search/match (15.10.4.1), ToString(v) used literally otherwise.
+type plainCase struct {
+	Method string   `json:"method"`
+	U      []uint16 `json:"u"`
+	Args   []val    `json:"args"`
+}
+
+func regexSafe(u []uint16) bool {
+	for _, c := range u {
+		if !(c >= '0' && c <= '9' || c >= 'a' && c <= 'z' || c >= 'A' && c <= 'Z') {
+			return false
+		}
+	}
+	return true
+}
+
+func hasUnit16(u []uint16, x uint16) bool {
+	for _, c := range u {
+		if c == x {
+			return true
+		}
+	}
+	return false
+}
+
+var plainFacet = harness.Register(&harness.Facet[plainCase]{
+	Name:     "search-match-replace-plain-argument",
+	Rule:     "rapid: search(v) / match(v) / replace(v, w) on a primitive string that contains (once or twice, between units of the small alphabets) the ToString image of v, or on a random string; v, w ∈ {explicit undefined, omitted, null, NaN, ±0, 1, -1, 12, Infinity, true, false, {}, [1,2], [null,undefined], \"ab\"} (w also a random string without '$'); oracle: search/match with undefined or no argument use the empty pattern (result 0 / [\"\"] at index 0), otherwise ToString(v) is searched literally (patterns restricted to [A-Za-z0-9]* for search/match, others discarded); match result checked as [matched text], index, input; replace substitutes the first occurrence of ToString(v) by ToString(w) ('$' kept out: replacement patterns are C10); non-trivial = non-ASCII string or an argument that is not a string; distinct by (method, string, arguments)",
+	Quick:    6000,
+	Thorough: 20000,
+	Gen: func(t *rapid.T) plainCase {
+		c := plainCase{Method: rapid.SampledFrom([]string{"search", "match", "replace", "replace"}).Draw(t, "method"), Args: []val{}}
+		s, v := genImageString(t)
+		if rapid.IntRange(0, 5).Draw(t, "random-recv") == 0 {
+			s = genUnits(10).Draw(t, "s")
+		}
+		c.U = s
+		if !(v.K == "undef" && rapid.IntRange(0, 2).Draw(t, "omit") == 0) {
+			c.Args = append(c.Args, v)
+		}
+		if c.Method == "replace" && len(c.Args) == 1 && rapid.IntRange(0, 4).Draw(t, "with-w") > 0 {
+			if rapid.Bool().Draw(t, "w-image") {
+				c.Args = append(c.Args, rapid.SampledFrom(imageVals).Draw(t, "w"))
+			} else {
+				c.Args = append(c.Args, vStr(genUnits(3).Draw(t, "w-str")))
+			}
+		}
+		return c
+	},
+	Check: func(c plainCase) harness.Outcome {
+		o := harness.Outcome{Classes: []string{"method:" + c.Method, fmt.Sprintf("nargs:%d", len(c.Args))}, Nontrivial: !gen.AllASCII(c.U)}
+		cv := &conv{}
+		parts := make([]string, len(c.Args))
+		for i, a := range c.Args {
+			if a.logs() {
+				o.Discard = "logging argument: not this facet's domain"
+				return o
+			}
+			parts[i] = a.render(fmt.Sprint(i))
+			o.Classes = append(o.Classes, fmt.Sprintf("arg%d:%s", i, a.K))
+			if a.K != "str" {
+				o.Nontrivial = true
+			}
+		}
+		if len(c.Args) == 0 {
+			o.Nontrivial = true
+		}
+		arg := func(i int) val {
+			if i < len(c.Args) {
+				return c.Args[i]
+			}
+			return vUndef()
+		}
+		call := show16(c.U) + "." + c.Method + "(" + strings.Join(parts, ",") + ")"
+		switch c.Method {
+		case "search", "match":
+			pat := []uint16{} // new RegExp(undefined) is the empty pattern (15.10.4.1)
+			if arg(0).K != "undef" {
+				pat = cv.toString(arg(0), "0")
+				if !regexSafe(pat) {
+					o.Discard = "pattern text has regular expression syntax (C10)"
+					return o
+				}
+			}
+			idx := m09.IndexOf(c.U, pat, 0)
+			if idx >= 0 {
+				o.Classes = append(o.Classes, "found")
+			}
+			if c.Method == "search" {
+				g := evalCall(call)
+				if g.bad != "" || g.err != "none" || g.typ != "number" || g.num != float64(idx) {
+					o.Fail = fmt.Sprintf("%s = %s %s %s, want %d: a non-RegExp argument is compiled with new RegExp(ToString(v)), undefined gives the empty pattern (15.5.4.12, 15.10.4.1)", call, g.repr, g.bad, g.err, idx)
+				}
+				return o
+			}
+			g := evalCall("(function(r){return r===null?null:[String(r.length),r[0],String(r.index),r.input,typeof r[0]]})(" + call + ")")
+			if g.bad != "" || g.err != "none" {
+				o.Fail = fmt.Sprintf("%s: %s %s", call, g.bad, g.err)
+				return o
+			}
+			if idx < 0 {
+				if g.repr != "null" {
+					o.Fail = fmt.Sprintf("%s = %s %s, want null (15.5.4.10)", call, g.repr, showArr(g.arr))
+				}
+				return o
+			}
+			want := [][]uint16{asc("1"), pat, asc(fmt.Sprint(idx)), c.U, asc("string")}
+			same := g.typ == "array" && g.arrBad == "" && len(g.arr) == len(want)
+			for i := 0; same && i < len(want); i++ {
+				same = m09.Equal(g.arr[i], want[i])
+			}
+			if !same {
+				o.Fail = fmt.Sprintf("%s gives [length, [0], index, input, typeof [0]] = %s %s, want %s (15.5.4.10, 15.10.6.2)", call, g.repr, showArr(g.arr), showArr(want))
+			}
+		case "replace":
+			search := cv.toString(arg(0), "0")
+			repl := cv.toString(arg(1), "1")
+			if hasUnit16(repl, '$') {
+				o.Discard = "replacement text contains $ (C10)"
+				return o
+			}
+			want := append([]uint16{}, c.U...)
+			if idx := m09.IndexOf(c.U, search, 0); idx >= 0 {
+				o.Classes = append(o.Classes, "found")
+				want = append(append(append([]uint16{}, c.U[:idx]...), repl...), c.U[idx+len(search):]...)
+			}
+			g := evalCall(call)
+			if g.bad != "" || g.err != "none" || g.typ != "string" || !m09.Equal(g.str, want) || g.jslen != len(want) {
+				o.Fail = fmt.Sprintf("%s = %s %s %s, want %s: searchString = ToString(searchValue), newstring = ToString(replaceValue), first occurrence (15.5.4.11)", call, show16(g.str), g.bad, g.err, show16(want))
+			}
+		default:
+			panic("method " + c.Method)
+		}
+		return o
+	},
+})
+
+func TestPlainArgument(t *testing.T) { plainFacet.Run(t) }
